@@ -10,10 +10,60 @@ import "time"
 // property), and every lock taken is released when the entry point returns. Data races
 // and deadlocks under real schedules are outside the claim.
 
-func vh_C20_L1_api_lock_balance() {
+func vh_C20_L1_api_lock_balance() { vAPIWalk(false) }
+
+// C20.L2: lockset discipline. The fields that the association lock and the stream lock
+// protect are declared guarded; on every path of the same walk through the API and the
+// internal entry points (timer callbacks, inbound chunks, the writer), no code of the
+// package reads one of them without its lock or writes one without holding it exclusively.
+func vh_C20_L2_lockset_discipline() { vAPIWalk(true) }
+
+func vDeclareGuards(a *Association, s *Stream) {
+	vGuardedBy(&s.sequenceNumber, &s.lock, "Stream.sequenceNumber")
+	vGuardedBy(&s.nextOrderedMID, &s.lock, "Stream.nextOrderedMID")
+	vGuardedBy(&s.nextUnorderedMID, &s.lock, "Stream.nextUnorderedMID")
+	vGuardedBy(&s.readErr, &s.lock, "Stream.readErr")
+	vGuardedBy(&s.unordered, &s.lock, "Stream.unordered")
+	vGuardedBy(&s.reliabilityType, &s.lock, "Stream.reliabilityType")
+	vGuardedBy(&s.reliabilityValue, &s.lock, "Stream.reliabilityValue")
+	vGuardedBy(&s.bufferedAmount, &s.lock, "Stream.bufferedAmount")
+	vGuardedBy(&s.bufferedAmountLow, &s.lock, "Stream.bufferedAmountLow")
+	vGuardedBy(&s.onBufferedAmountLow, &s.lock, "Stream.onBufferedAmountLow")
+	vGuardedBy(&s.state, &s.lock, "Stream.state")
+	vGuardedBy(&s.readTimeoutCancel, &s.lock, "Stream.readTimeoutCancel")
+	vGuardedBy(&a.streams, &a.lock, "Association.streams")
+	vGuardedBy(&a.myNextTSN, &a.lock, "Association.myNextTSN")
+	vGuardedBy(&a.myNextRSN, &a.lock, "Association.myNextRSN")
+	vGuardedBy(&a.reconfigs, &a.lock, "Association.reconfigs")
+	vGuardedBy(&a.reconfigRequests, &a.lock, "Association.reconfigRequests")
+	vGuardedBy(&a.cumulativeTSNAckPoint, &a.lock, "Association.cumulativeTSNAckPoint")
+	vGuardedBy(&a.advancedPeerTSNAckPoint, &a.lock, "Association.advancedPeerTSNAckPoint")
+	vGuardedBy(&a.willSendShutdown, &a.lock, "Association.willSendShutdown")
+	vGuardedBy(&a.willSendAbort, &a.lock, "Association.willSendAbort")
+	vGuardedBy(&a.willSendForwardTSN, &a.lock, "Association.willSendForwardTSN")
+	vGuardedBy(&a.willRetransmitFast, &a.lock, "Association.willRetransmitFast")
+	vGuardedBy(&a.writePending, &a.lock, "Association.writePending")
+	vGuardedBy(&a.ackState, &a.lock, "Association.ackState")
+	vGuardedBy(&a.inFastRecovery, &a.lock, "Association.inFastRecovery")
+	vGuardedBy(&a.partialBytesAcked, &a.lock, "Association.partialBytesAcked")
+	vGuardedBy(&a.ssthresh, &a.lock, "Association.ssthresh")
+}
+
+func vAPIWalk(guards bool) {
 	a, _ := vNewAssocOpts(vAssocOpts{blockWrite: vPick(2) == 1})
 	s, err := a.OpenStream(1, PayloadTypeWebRTCBinary)
 	vassert(err == nil, "open stream")
+	if vPick(2) == 1 {
+		// a message is already in flight when the walk begins
+		_, werr := s.WriteSCTP(nondetBytes(1), PayloadTypeWebRTCBinary)
+		vassert(werr == nil, "write accepted")
+		a.cwnd, a.rwnd = 1<<20, 1<<20
+		_ = vWriterPass(a)
+		vassert(a.inflightQueue.size() == 1, "in flight")
+	}
+	if guards {
+		vDeclareGuards(a, s)
+	}
 	cum := a.peerLastTSN()
 	vassert(vDeliver(a, vDataChunk(a, cum+1, 1, false, 2)) == nil, "inbound data for the stream")
 	vassert(vLocksFree(a, s), "locks free after inbound DATA")
